@@ -1178,7 +1178,6 @@ func (b *Body) optionsFieldConstFalseRec(opt ssa.Value, field string, fn *ssa.Fu
 	return false, "options value " + describeValue(opt) + " cannot be traced to a literal"
 }
 
-
 // encodeFnOf: the function that encodes the patched document: the loop function, or the
 // library helper it calls (outside the loop) that contains the codec's Marshal call.
 func (b *Body) encodeFnOf(ai *applyInfo) *ssa.Function {
